@@ -48,6 +48,7 @@ type Explorer struct {
 	Parts      int
 	Check      func(x Exec)
 	Stop       func() bool
+	Pre        func() // run before every execution: brings process-wide state to a canonical point
 	Executions int64
 	MaxPoints  int
 	Capped     bool
@@ -78,6 +79,9 @@ func (e *Explorer) explore(prefix []int, usedCost int, depth int) {
 	if e.Stop != nil && e.Stop() {
 		e.Capped = true
 		return
+	}
+	if e.Pre != nil {
+		e.Pre()
 	}
 	x := runExecF(e.Mk, e.N, prefix, e.MapChoices, e.SiteOK)
 	if x.Diverged != "" {
